@@ -1103,3 +1103,372 @@ def vary_type(rng, sch, t):
             return t[1] if t[1][0] == "n" else NN(flip(t[1]))
         return L(flip(t[1]))
     return flip(t)
+
+
+# ---------------------------------------------------------------- directed (systematic) cases
+def directed(rng, sch, budget):
+    """rule-directed documents enumerated over the schema model; `budget` caps each group (sampled)."""
+    out = []
+    q = sch.roots["query"]
+    comps = [c for c in sch.composites() if sch.field(q, c.lower())]
+
+    def cap(lst, n=None):
+        lst = list(lst)
+        n = n or budget
+        if len(lst) > n:
+            lst = rng.sample(lst, n)
+        return lst
+
+    def at_type(T, sels):
+        f = sch.field(q, T.lower())
+        return mk_field(f[0], args=const_args(rng, sch, f[1]), sels=sels)
+
+    def fsel(f, alias=None, sub=None, args=None):
+        return mk_field(f[0], alias=alias, args=const_args(rng, sch, f[1]) if args is None else args,
+                        sels=leaf_or_sub(sch, f[2]) if sub is None else sub)
+
+    def under(T, P, x, mode):
+        """selection x (on type T) placed in a selection set on P"""
+        if mode == "inline" or T != P:
+            return {"k": "I", "cond": T, "dirs": [], "sels": [x]}
+        return x
+
+    # A. two fields with one response key under same / different-object / abstract parents
+    group = []
+    for P in comps:
+        conds = [c for c in sch.composites() if set(sch.possible(P)) & set(sch.possible(c))] + [P]
+        for T1 in conds:
+            for T2 in conds:
+                for f1 in sch.fields(T1) + [("__typename", [], NN(N("String")))]:
+                    for f2 in sch.fields(T2) + [("__typename", [], NN(N("String")))]:
+                        group.append((P, T1, T2, f1, f2))
+    for P, T1, T2, f1, f2 in cap(group, budget * 3):
+        frags = []
+        a = under(T1, P, fsel(f1, alias="k"), rng.choice(["inline", "plain"]))
+        b = under(T2, P, fsel(f2, alias="k"), rng.choice(["inline", "plain"]))
+        if rng.random() < 0.3:
+            frags.append(mk_frag("Fa", T1, [fsel(f1, alias="k")]))
+            a = {"k": "S", "name": "Fa", "dirs": []}
+        out.append(("merge-pair", [mk_op([at_type(P, [a, b])])] + frags))
+    # A2. the same one level deeper: the parents' keys equal, sub-fields aliased to one key
+    group = []
+    for P in comps:
+        conds = [c for c in sch.composites() if set(sch.possible(P)) & set(sch.possible(c))] + [P]
+        for T1 in conds:
+            for T2 in conds:
+                for g1 in sch.fields(T1):
+                    for g2 in sch.fields(T2):
+                        if sch.is_composite(named(g1[2])) and sch.is_composite(named(g2[2])):
+                            group.append((P, T1, T2, g1, g2))
+    for P, T1, T2, g1, g2 in cap(group, budget * 2):
+        U1, U2 = named(g1[2]), named(g2[2])
+        h1 = rng.choice(sch.fields(U1) + [("__typename", [], NN(N("String")))])
+        h2 = rng.choice(sch.fields(U2) + [("__typename", [], NN(N("String")))])
+        a = under(T1, P, fsel(g1, alias="k", sub=[fsel(h1, alias="j")]), "inline")
+        b = under(T2, P, fsel(g2, alias="k", sub=[fsel(h2, alias="j")]), "inline")
+        out.append(("merge-nested-pair", [mk_op([at_type(P, [a, b])])]))
+    # B. a duplicated field whose arguments are equal / differ in one value
+    sc = sch.field(q, "scalars")
+    variants = {
+        "i": [("int", "1"), ("int", "2"), ("var", "a"), ("var", "b"), ("null",)],
+        "f": [("float", "1.0"), ("float", "1.00"), ("int", "1"), ("var", "a")],
+        "s": [("str", "a"), ("str", "b"), ("str", ""), ("null",)],
+        "b": [("bool", True), ("bool", False)],
+        "e": [("enum", list(sch.enums.values())[0][0]), ("enum", list(sch.enums.values())[0][1]), ("var", "a")],
+        "li": [("list", []), ("list", [("int", "1")]), ("list", [("int", "1"), ("int", "2")]),
+               ("list", [("int", "2"), ("int", "1")]), ("list", [("int", "1"), ("int", "1")]), ("int", "1"),
+               ("list", [("var", "a")]), ("list", [("var", "b")])],
+        "lli": [("list", [("list", [("int", "1")])]), ("list", [("list", [("int", "1")]), ("list", [])]),
+                ("list", [("list", [("int", "1"), ("int", "2")])]), ("list", [("list", [])])],
+        "j": [("obj", [("a", ("int", "1")), ("b", ("int", "2"))]), ("obj", [("b", ("int", "2")), ("a", ("int", "1"))]),
+              ("obj", [("a", ("int", "1"))]), ("obj", [("a", ("int", "1")), ("b", ("int", "3"))]),
+              ("obj", [("a", ("int", "1")), ("a", ("int", "1"))]), ("obj", [("a", ("int", "1")), ("a", ("int", "2"))]),
+              ("obj", [("a", ("obj", [("x", ("list", [("int", "1")])), ("y", ("null",))])), ("b", ("int", "2"))]),
+              ("obj", [("b", ("int", "2")), ("a", ("obj", [("y", ("null",)), ("x", ("list", [("int", "1")]))]))]),
+              ("obj", [("b", ("int", "2")), ("a", ("obj", [("y", ("null",)), ("x", ("list", [("int", "1"), ("int", "1")]))]))]),
+              ("list", [("int", "1")]), ("int", "1"), ("str", "1")],
+    }
+    vtypes = {"i": N("Int"), "f": N("Float"), "e": sc[1][5][1], "li": N("Int")}
+    group = [(a, v1, v2) for a, vs in variants.items() for v1 in vs for v2 in vs]
+    for a, v1, v2 in cap(group, budget * 3):
+        used = sorted({x[1] for x in value_leaves(v1) + value_leaves(v2) if x[0] == "var"})
+        vars_ = [(n, vtypes.get(a, N("Int")), None, []) for n in used]
+        mode = rng.choice(["same", "same", "diff-objects", "one-missing", "extra-arg"])
+        f1 = mk_field("scalars", args=[(a, v1)])
+        f2 = mk_field("scalars", args=[(a, v2)])
+        if mode == "one-missing":
+            f2 = mk_field("scalars")
+        elif mode == "extra-arg":
+            f2 = mk_field("scalars", args=[("s", ("str", "z")), (a, v2)])
+            f1 = mk_field("scalars", args=[(a, v1), ("s", ("str", "z"))])
+        out.append(("merge-arguments-" + mode, [mk_op([f1, f2], vars_=vars_)]))
+    # C. every kind of literal for every argument type, at every list depth
+    group = [(a, t, lit, depth) for a, t, dv in sc[1] for lit in WRONG_LITERALS for depth in (0, 1, 2)]
+    for a, t, lit, depth in cap(group, budget * 4):
+        v = lit
+        for _ in range(depth):
+            v = ("list", [v])
+        out.append(("literal-kind-depth", [mk_op([mk_field("scalars", args=[(a, v)])])]))
+    # C2. the same inside input object fields
+    group = []
+    for iname, fs in sch.inputs.items():
+        for f, ft, dv in fs:
+            for lit in WRONG_LITERALS:
+                group.append((iname, f, lit))
+    holders = {}
+    for T in [q] + list(sch.objects):
+        for f in sch.fields(T):
+            for a, t, dv in f[1]:
+                if named(t) in sch.inputs and t[0] == "n":
+                    holders.setdefault(named(t), (T, f, a))
+    for iname, f, lit in cap(group, budget * 2):
+        if iname not in holders:
+            continue
+        T, fd, a = holders[iname]
+        base = dict(const_value(rng, sch, NN(N(iname)))[1])
+        base[f] = lit
+        args = dict(const_args(rng, sch, fd[1]))
+        args[a] = ("obj", list(base.items()))
+        x = mk_field(fd[0], args=list(args.items()), sels=leaf_or_sub(sch, fd[2]))
+        out.append(("literal-kind-input-field", [mk_op([x if T == q else at_type(T, [x])])]
+                    if T == q or sch.field(q, T.lower()) else None))
+    out = [o for o in out if o[1] is not None]
+    # D. variables in every kind of position
+    def tvariants(t):
+        base = nullable(t)
+        return [base, NN(base), L(base), NN(L(base)), L(NN(base)), N("String") if named(t) != "String" else N("Int")] + \
+               ([base[1], NN(base[1])] if base[0] == "l" else [])
+    positions = [("scalars", "i", N("Int"), None), ("scalars", "li", L(N("Int")), None),
+                 ("scalars", "lli", L(L(N("Int"))), None), ("scalars", "lnn", L(NN(N("Int"))), None),
+                 ("scalars", "nnl", NN(L(N("Int"))), ("list", [])), ("need", "n", NN(N("Int")), None),
+                 ("need", "d", NN(N("Int")), ("int", "3")), ("scalars", "j", N(sch.scalars[0]), None),
+                 ("scalars", "e", sc[1][5][1], None)]
+    group = []
+    for fld, a, t, locdef in positions:
+        for wrap in ("top", "list", "list2", "obj"):
+            pt = t
+            if wrap == "list":
+                if nullable(t)[0] != "l":
+                    continue
+                pt = nullable(t)[1]
+            elif wrap == "list2":
+                if nullable(t)[0] != "l" or nullable(nullable(t)[1])[0] != "l":
+                    continue
+                pt = nullable(nullable(t)[1])[1]
+            elif wrap == "obj":
+                continue
+            for vt in tvariants(pt):
+                for dv in ("none", "null", "value"):
+                    group.append((fld, a, t, wrap, vt, dv))
+    for fld, a, t, wrap, vt, dv in cap(group, budget * 4):
+        default = None
+        if dv == "null":
+            default = ("null",)
+        elif dv == "value":
+            default = const_value(rng, sch, vt, allow_null=False)
+        v = ("var", "v")
+        if wrap == "list":
+            v = ("list", [v])
+        elif wrap == "list2":
+            v = ("list", [("list", [v])])
+        fd = sch.field(q, fld)
+        args = dict(const_args(rng, sch, fd[1]))
+        args[a] = v
+        out.append(("variable-position-" + wrap, [mk_op([mk_field(fld, args=list(args.items()))],
+                                                          vars_=[("v", vt, default, [])])]))
+    # D2. variables as values of input object fields (with and without field defaults, nullable / non-null)
+    group = []
+    for iname, fs in sch.inputs.items():
+        if iname not in holders:
+            continue
+        for f, ft, fdv in fs:
+            for vt in tvariants(ft):
+                for dv in ("none", "null", "value"):
+                    group.append((iname, f, ft, vt, dv))
+    for iname, f, ft, vt, dv in cap(group, budget * 3):
+        T, fd, a = holders[iname]
+        if not (T == q or sch.field(q, T.lower())):
+            continue
+        default = None
+        if dv == "null":
+            default = ("null",)
+        elif dv == "value":
+            default = const_value(rng, sch, vt, allow_null=False)
+        base = dict(const_value(rng, sch, NN(N(iname)))[1])
+        base[f] = ("var", "v") if rng.random() < 0.7 or nullable(ft)[0] != "l" else ("list", [("var", "v")])
+        args = dict(const_args(rng, sch, fd[1]))
+        args[a] = ("obj", list(base.items()))
+        x = mk_field(fd[0], args=list(args.items()), sels=leaf_or_sub(sch, fd[2]))
+        out.append(("variable-in-input-field", [mk_op([x if T == q else at_type(T, [x])],
+                                                      vars_=[("v", vt, default, [])])]))
+    # D3. variables inside custom scalar literals
+    jn = sch.scalars[0]
+    for v, vt in [(("obj", [("a", ("var", "v"))]), N("Int")), (("obj", [("a", ("var", "undefinedVar"))]), None),
+                  (("list", [("var", "v")]), N("Int")), (("list", [("var", "v")]), N(jn)), (("list", [("var", "v")]), L(N(jn))),
+                  (("obj", [("a", ("list", [("var", "v")]))]), N("String")), (("list", [("obj", [("a", ("var", "v"))])]), N("Int")),
+                  (("list", [("obj", [("a", ("var", "undefinedVar"))])]), None),
+                  (("obj", [("a", ("obj", [("b", ("int", "1")), ("b", ("int", "1"))]))]), None),
+                  (("obj", [("b", ("int", "1")), ("b", ("int", "1"))]), None),
+                  (("list", [("obj", [("b", ("int", "1")), ("b", ("int", "2"))])]), None),
+                  (("list", [("null",)]), None), (("list", [("list", [("null",)])]), None), (("obj", [("a", ("null",))]), None)]:
+        out.append(("custom-scalar-literal", [mk_op([mk_field("scalars", args=[("j", v)])],
+                                                    vars_=[("v", vt, None, [])] if vt else [])]))
+    for vt in [N(sch.composites()[0]), N("ZzNoType"), L(N(list(sch.objects)[0])), N(list(sch.inputs)[0]), N(list(sch.enums)[0])]:
+        out.append(("variable-type-kind", [mk_op([mk_field("scalars", args=[("j", ("obj", [("a", ("var", "v"))]))])],
+                                                 vars_=[("v", vt, None, [])])]))
+    # E. every directive at every location, once and twice, with and without its arguments
+    dall = all_directives(sch)
+    group = [(dn, loc, rep, am) for dn in dall for loc in EXEC_LOCS for rep in (1, 2)
+             for am in ("ok", "none", "unknown", "null")]
+    for dn, loc, rep, am in cap(group, budget * 3):
+        dd = dall[dn]
+        args = const_args(rng, sch, dd["args"], all_args=True)
+        if am == "none":
+            args = []
+        elif am == "unknown":
+            args = args + [("zzUnknown", ("int", "1"))]
+        elif am == "null":
+            args = [(a, ("null",)) for a, v in args]
+        dirs = [(dn, args)] * rep
+        fr = mk_frag("Fd", q, [mk_field("__typename")], dirs=dirs if loc == "FRAGMENT_DEFINITION" else [])
+        sels = [{"k": "S", "name": "Fd", "dirs": dirs if loc == "FRAGMENT_SPREAD" else []},
+                {"k": "I", "cond": None, "dirs": dirs if loc == "INLINE_FRAGMENT" else [], "sels": [mk_field("count")]},
+                mk_field("need", args=[("n", ("var", "v"))], dirs=dirs if loc == "FIELD" else [])]
+        ot = {"MUTATION": "mutation", "SUBSCRIPTION": "subscription"}.get(loc, "query")
+        if ot != "query":
+            root = sch.roots.get(ot)
+            if not root:
+                continue
+            f0 = sch.fields(root)[-1] if ot == "subscription" else sch.fields(root)[0]
+            op = mk_op([fsel(f0)], optype=ot, dirs=dirs)
+            out.append(("directive-location", [op]))
+            continue
+        op = mk_op(sels, vars_=[("v", NN(N("Int")), None, dirs if loc == "VARIABLE_DEFINITION" else [])],
+                   dirs=dirs if loc == "QUERY" else [])
+        out.append(("directive-location", [op, fr]))
+    # F. subscriptions
+    sub = sch.roots.get("subscription")
+    if sub:
+        fs = sch.fields(sub)
+        f_tick = sch.field(sub, "tick")
+        f_tock = sch.field(sub, "tock")
+        others = [c for c in sch.composites() if c != sub]
+        shapes = []
+        t1, t2 = fsel(f_tick), fsel(f_tock)
+        shapes += [[t1], [t1, t1], [t1, t2], [fsel(f_tick, alias="a"), fsel(f_tick, alias="a")],
+                   [fsel(f_tick, alias="a"), fsel(f_tock, alias="a")], [fsel(f_tick, alias="a"), fsel(f_tick, alias="b")],
+                   [mk_field("__typename")], [t1, mk_field("__typename")], [mk_field("__typename", alias="tick"), t1],
+                   [mk_field("__schema", sels=[mk_field("__typename")])],
+                   [{"k": "I", "cond": None, "dirs": [], "sels": [t1]}], [{"k": "I", "cond": sub, "dirs": [], "sels": [t1, t2]}],
+                   [{"k": "I", "cond": None, "dirs": [], "sels": [t1]}, t1], [{"k": "S", "name": "Fs", "dirs": []}],
+                   [{"k": "S", "name": "Fs", "dirs": []}, {"k": "S", "name": "Fs", "dirs": []}],
+                   [{"k": "S", "name": "Fs", "dirs": []}, t2], [{"k": "S", "name": "Fs", "dirs": []}, t1]]
+        for dn in ("skip", "include"):
+            for val in (("bool", True), ("bool", False), ("var", "c")):
+                d1 = [(dn, [("if", val)])]
+                shapes += [[mk_field("tick", dirs=d1)], [t1, mk_field("tock", dirs=d1)],
+                           [{"k": "I", "cond": None, "dirs": d1, "sels": [t1]}], [{"k": "S", "name": "Fs", "dirs": d1}],
+                           [mk_field("obj", sels=[mk_field("__typename", dirs=d1)])],
+                           [{"k": "S", "name": "Fskip", "dirs": []}]]
+        # fragments whose type condition does not apply to the subscription type, nested in ones that do
+        for I in sch.objects[sub]["implements"]:
+            for O in sch.possible(I):
+                if O != sub:
+                    f0 = sch.fields(O)[0]
+                    shapes += [[t1, {"k": "I", "cond": I, "dirs": [], "sels": [{"k": "I", "cond": O, "dirs": [], "sels": [fsel(f0, alias="zz")]}]}],
+                               [{"k": "I", "cond": I, "dirs": [], "sels": [{"k": "I", "cond": O, "dirs": [], "sels": [fsel(f0, alias="zz")]}]}]]
+        for U, ms in sch.unions.items():
+            if sub in ms:
+                for O in ms:
+                    if O != sub:
+                        f0 = sch.fields(O)[0]
+                        shapes += [[t1, {"k": "I", "cond": U, "dirs": [], "sels": [{"k": "I", "cond": O, "dirs": [], "sels": [fsel(f0, alias="zz")]}]}]]
+        for O in others[:3]:
+            shapes.append([t1, {"k": "I", "cond": O, "dirs": [], "sels": [mk_field("__typename", alias="zz")]}])
+        for sh in shapes:
+            text = " ".join(sel_str(x) for x in sh)
+            doc = [mk_op(copy.deepcopy(sh), optype="subscription",
+                         vars_=[("c", NN(N("Boolean")), None, [])] if "$c" in text or "Fskip" in text else [])]
+            if "...Fs" in text and "Fskip" not in text or "...Fs " in text + " ":
+                doc.append(mk_frag("Fs", sub, [fsel(f_tick)]))
+            if "Fskip" in text:
+                doc.append(mk_frag("Fskip", sub, [mk_field("tick", dirs=[("skip", [("if", ("var", "c"))])])]))
+            out.append(("subscription-shape", doc))
+    # H. fragment graphs: cycles through fields and inline fragments, and acyclic diamonds
+    def fr(name, succ, wrap):
+        sels = [mk_field("__typename")]
+        for nm in succ:
+            sp = {"k": "S", "name": nm, "dirs": []}
+            w = wrap if wrap != "mix" else rng.choice(["direct", "inline", "field"])
+            if w == "inline":
+                sp = {"k": "I", "cond": q, "dirs": [], "sels": [sp]}
+            elif w == "field":
+                # a field of the query type that returns the query type does not exist: nest under an inline
+                sp = {"k": "I", "cond": None, "dirs": [], "sels": [{"k": "I", "cond": None, "dirs": [], "sels": [sp]}]}
+            sels.append(sp)
+        return mk_frag(name, q, sels)
+    graphs = {
+        "self": {"A": ["A"]}, "two": {"A": ["B"], "B": ["A"]}, "three": {"A": ["B"], "B": ["C"], "C": ["A"]},
+        "four": {"A": ["B"], "B": ["C"], "C": ["D"], "D": ["A"]},
+        "tail-cycle": {"A": ["B"], "B": ["C"], "C": ["B"]},                 # cycle not through the first fragment
+        "diamond": {"A": ["B", "C"], "B": ["D"], "C": ["D"], "D": []},      # acyclic
+        "diamond-back": {"A": ["B", "C"], "B": ["D"], "C": ["D"], "D": ["A"]},
+        "seen-then-back": {"A": ["B", "C"], "B": ["C"], "C": ["A"]},
+        "seen-no-cycle": {"A": ["B", "C"], "B": ["C"], "C": []},
+        "side-cycle": {"A": ["B", "C"], "B": ["B2"], "B2": ["B"], "C": []},
+        "double-spread": {"A": ["B", "B"], "B": []},
+        "chain5": {"A": ["B"], "B": ["C"], "C": ["D"], "D": ["E"], "E": []},
+        "cross": {"A": ["B", "C"], "B": ["C"], "C": ["B"]},
+        "late-back": {"A": ["B", "C"], "B": [], "C": ["D"], "D": ["B", "A"]},
+    }
+    for gname, gr in graphs.items():
+        for wrap in ("direct", "inline", "mix"):
+            doc = [mk_op([{"k": "S", "name": "A", "dirs": []}])] + [fr(n, s, wrap) for n, s in gr.items()]
+            if rng.random() < 0.5:
+                rng.shuffle(doc)
+            out.append(("fragment-graph-" + gname, doc))
+    # cycles through a field that returns a composite: fragment on T { f { ...same } } where f : T
+    for T in sch.objects:
+        for f in sch.fields(T):
+            if named(f[2]) == T and sch.field(q, T.lower()):
+                out.append(("fragment-cycle-through-field",
+                            [mk_op([at_type(T, [{"k": "S", "name": "Fc", "dirs": []}])]),
+                             mk_frag("Fc", T, [fsel(f, sub=[{"k": "S", "name": "Fc", "dirs": []}, mk_field("__typename")])])]))
+    # I. every (parent, type condition) pair
+    group = [(P, C, kind) for P in comps for C in sch.composites() + list(sch.enums)[:1] + ["Int", "ZzNoType"] + list(sch.inputs)[:1]
+             for kind in ("inline", "named")]
+    for P, C, kind in cap(group, budget * 3):
+        if kind == "inline":
+            doc = [mk_op([at_type(P, [{"k": "I", "cond": C, "dirs": [], "sels": [mk_field("__typename")]}])])]
+        else:
+            doc = [mk_op([at_type(P, [{"k": "S", "name": "Fp", "dirs": []}])]), mk_frag("Fp", C, [mk_field("__typename")])]
+        out.append(("spread-pair", doc))
+    # J. leaf / composite selections for every field of every type; meta fields
+    group = [(T, f, sub) for T in comps for f in sch.fields(T) for sub in (True, False)]
+    for T, f, sub in cap(group, budget * 2):
+        x = fsel(f, sub=[mk_field("__typename")] if sub else [])
+        out.append(("leaf-or-composite", [mk_op([at_type(T, [x])])]))
+    meta = [[mk_field("__schema", sels=[mk_field("types", sels=[mk_field("name")])])],
+            [mk_field("__type", args=[("name", ("str", "A"))], sels=[mk_field("name")])],
+            [mk_field("__type", sels=[mk_field("name")])], [mk_field("__type", args=[("name", ("int", "1"))], sels=[mk_field("name")])],
+            [mk_field("__schema")], [mk_field("__typename", sels=[mk_field("x")])],
+            [mk_field("__type", args=[("name", ("str", "A"))], sels=[mk_field("fields", args=[("includeDeprecated", ("bool", True))], sels=[mk_field("name")])])],
+            [mk_field("__type", args=[("name", ("str", "A"))], sels=[mk_field("fields", args=[("includeDeprecated", ("str", "x"))], sels=[mk_field("name")])])],
+            [mk_field("__type", args=[("name", ("str", "A"))], sels=[mk_field("kind", sels=[mk_field("x")])])]]
+    for sels in meta:
+        out.append(("introspection", [mk_op(sels)]))
+    for T in comps[:4]:
+        out.append(("introspection", [mk_op([at_type(T, [mk_field("__schema", sels=[mk_field("__typename")])])])]))
+        out.append(("introspection", [mk_op([at_type(T, [mk_field("__typename"), mk_field("__typename", alias="t2")])])]))
+    if "mutation" in sch.roots:
+        out.append(("introspection", [mk_op([mk_field("__schema", sels=[mk_field("__typename")])], optype="mutation")]))
+        out.append(("introspection", [mk_op([mk_field("__typename")], optype="mutation")]))
+    return out
+
+
+def value_leaves(v):
+    if v[0] == "list":
+        return [y for x in v[1] for y in value_leaves(x)]
+    if v[0] == "obj":
+        return [y for k, x in v[1] for y in value_leaves(x)]
+    return [v]
